@@ -24,6 +24,8 @@ pub enum Case
     Tree { entries: Vec<(u8, u8, u8)>, change: u8, pick: u16, order_seed: u64 },
     /// a saved libFuzzer input of the decode62 target (hex)
     FuzzBytes { hex: String },
+    /// a directory on the real file system, hashed by the built binary
+    RealTree { root: String, files: Vec<(String, String)> },
 }
 
 fn fill_bytes(len: usize, fill: u8, seed: u64) -> Vec<u8>
@@ -254,6 +256,41 @@ fn check_tree(entries: &[(u8, u8, u8)], change: u8, pick: u16, order_seed: u64) 
     Ok(())
 }
 
+/// The same tree on the real file system (entries in whatever order the OS lists them; hashed by the built binary) and in
+/// memory (sorted listing): the hash may depend on names and contents only.
+fn check_real_tree(root: &str, files: &[(String, String)]) -> Result<(), String>
+{
+    static N: std::sync::atomic::AtomicUsize = std::sync::atomic::AtomicUsize::new(0);
+    let dir = std::env::temp_dir().join(format!("rv-hashdir-{}-{}", std::process::id(), N.fetch_add(1, std::sync::atomic::Ordering::SeqCst)));
+    let _ = std::fs::remove_dir_all(&dir);
+    let mut ok = true;
+    for (p, c) in files.iter()
+    {
+        let full = dir.join(root).join(p);
+        if let Some(parent) = full.parent() { ok &= std::fs::create_dir_all(parent).is_ok(); }
+        ok &= std::fs::write(&full, c.as_bytes()).is_ok();
+    }
+    let s = VerifSystem::new(Clock::Distinct);
+    build_tree(&s, root, files, 0);
+    let want = dir_hash(&s, root);
+    let out = if ok { std::env::current_exe().ok().and_then(|exe| std::process::Command::new(&exe).current_dir(&dir).arg("hash").arg(root).output().ok()) } else { None };
+    let _ = std::fs::remove_dir_all(&dir);
+    match (out, want)
+    {
+        (Some(o), Ok(want)) =>
+        {
+            let got = String::from_utf8_lossy(&o.stdout).trim().to_string();
+            if got != want
+            {
+                return Err(format!("`hash {}` on a real directory of {} files printed {:?}; the same names and contents listed in sorted order hash to {}", root, files.len(), got, want));
+            }
+            Ok(())
+        }
+        // scratch directory or binary not usable: nothing to say
+        _ => Ok(()),
+    }
+}
+
 pub fn check(c: &Case) -> Result<(), String>
 {
     match c
@@ -262,6 +299,7 @@ pub fn check(c: &Case) -> Result<(), String>
         Case::Value { hex } => check_value(hex),
         Case::Text { s } => check_text(s),
         Case::Tree { entries, change, pick, order_seed } => check_tree(entries, *change, *pick, *order_seed),
+        Case::RealTree { root, files } => check_real_tree(root, files),
         Case::FuzzBytes { hex } =>
         {
             let data = crate::verif::fuzzrun::unhex(hex);
@@ -377,6 +415,7 @@ fn nontrivial(c: &Case) -> bool
         Case::Text { s } => s.len() >= 40 && s.len() <= 46,
         Case::Tree { .. } => true,
         Case::FuzzBytes { .. } => true,
+        Case::RealTree { .. } => true,
     }
 }
 
@@ -389,6 +428,7 @@ pub fn test_case(c: &Case, stats: &mut Stats) -> Result<(), String>
         Case::Text { s } => if b62::decode(s).is_ok() { "text-valid" } else { match b62::decode(s) { Err(b62::DecodeErr::Length) => "text-bad-length", Err(b62::DecodeErr::Character) => "text-foreign-char", _ => "text-overflow" } },
         Case::Tree { .. } => "tree",
         Case::FuzzBytes { .. } => "fuzz-input",
+        Case::RealTree { .. } => "real-fs-directory",
     };
     stats.class(class);
     let nt = nontrivial(c);
@@ -481,6 +521,28 @@ pub fn run(ctx: &Ctx) -> Report
                         }
                     }
                     Err(e) => eprintln!("cannot run {:?}: {}", exe, e),
+                }
+            }
+            // directories
+            let ntrees = ctx.tier.pick(8usize, 80);
+            for k in 0..ntrees
+            {
+                let root = format!("tree{}", k);
+                let mut files: Vec<(String, String)> = vec![];
+                let count = 6 + r.below(14);
+                for _ in 0..count
+                {
+                    let name = format!("{}{}", ["n", "x", "Zz", "a_", "m.", "0"][r.below(6) as usize], r.below(1000));
+                    let sub = match r.below(4) { 0 => "sub/", 1 => "sub/deeper/", _ => "" };
+                    let p = format!("{}{}", sub, name);
+                    if !files.iter().any(|(q, _)| *q == p) { files.push((p, format!("c{}", r.below(5)))); }
+                }
+                st.evaluations += 1;
+                st.count("realfs_hash_dir_calls", 1);
+                match check_real_tree(&root, &files)
+                {
+                    Ok(()) => st.nontrivial(drive::key_of(&(root.clone(), files.len()))),
+                    Err(reason) => rep.failures.push(drive::Failure { reason, case: json!(Case::RealTree { root: root.clone(), files: files.clone() }) }),
                 }
             }
             let _ = std::fs::remove_dir_all(&dir);
